@@ -216,6 +216,14 @@ func affineDepth(v ssa.Value, d int) term {
 		}
 	case *ssa.Call:
 		if b := builtinName(&x.Call); b == "len" || b == "cap" {
+			// len(x[l:h]) is h - l
+			if sl, ok := x.Call.Args[0].(*ssa.Slice); ok && b == "len" && sl.High != nil {
+				t := affineDepth(sl.High, d+1)
+				if sl.Low != nil {
+					t = t.add(affineDepth(sl.Low, d+1), -1)
+				}
+				return t
+			}
 			return atomTerm(b+"("+valKey(x.Call.Args[0])+")", x)
 		}
 	}
